@@ -439,7 +439,108 @@ func genC17(repo string) (string, error) {
 		return false
 	})
 	fmt.Fprintf(&sb, "/-- the unit switch of Interval.ValueOf -/\ndef suffixUnits : List (Char × Int) := [%s]\n", strings.Join(sus, ", "))
+
+	// ---- plan stages: where the payload of a task request comes from, and what the receiving
+	// processors unmarshal
+	var pps, calls []string
+	for _, site := range [][3]string{
+		{"query/context/root_metric_context.go", "RootMetricContext", "MakePlan"},
+		{"query/context/intermediate_metric_context.go", "IntermediateMetricContext", "MakePlan"},
+		{"query/context/metadata_context.go", "MetadataContext", "MakePlan"},
+	} {
+		_, f, err := ParseFile(repo, site[0])
+		if err != nil {
+			return "", err
+		}
+		fd := FindFunc(f, site[1], site[2])
+		if fd == nil {
+			return "", fmt.Errorf("%s.%s not found", site[1], site[2])
+		}
+		pps = append(pps, fmt.Sprintf("(%s, %s)", c17LeanStr(site[1]+"."+site[2]), c17LeanStr(c17PayloadSource(fd))))
+		calls = append(calls, fmt.Sprintf("(%s, %s)", c17LeanStr(site[1]+"."+site[2]), LeanStrList(CallSeq(fd))))
+	}
+	fmt.Fprintf(&sb, "\n/-- (plan stage, the expression whose value is sent as TaskRequest.Payload) -/\ndef planPayloads : List (String × String) := [%s]\n", strings.Join(pps, ", "))
+	fmt.Fprintf(&sb, "/-- calls of the plan stages in source order -/\ndef planCalls : List (String × List String) := [%s]\n", strings.Join(calls, ",\n  "))
+	var lus []string
+	for _, site := range [][3]string{
+		{"query/leaf_processor.go", "leafTaskProcessor", "processMetadataSuggest"},
+		{"query/leaf_processor.go", "leafTaskProcessor", "processDataSearch"},
+		{"query/intermediate_processor.go", "intermediateTaskProcessor", "processDataSearch"},
+		{"query/intermediate_processor.go", "intermediateTaskProcessor", "processMetadataSearch"},
+	} {
+		_, f, err := ParseFile(repo, site[0])
+		if err != nil {
+			return "", err
+		}
+		fd := FindFunc(f, site[1], site[2])
+		if fd == nil {
+			return "", fmt.Errorf("%s.%s not found", site[1], site[2])
+		}
+		var args []string
+		ast.Inspect(fd.Body, func(n ast.Node) bool {
+			if ce, ok := n.(*ast.CallExpr); ok {
+				if se, ok := ce.Fun.(*ast.SelectorExpr); ok && se.Sel.Name == "UnmarshalJSON" {
+					var as []string
+					for _, a := range ce.Args {
+						as = append(as, exprText(a))
+					}
+					args = append(args, strings.Join(as, ","))
+				}
+			}
+			return true
+		})
+		lus = append(lus, fmt.Sprintf("(%s, %s)", c17LeanStr(site[1]+"."+site[2]), LeanStrList(args)))
+	}
+	fmt.Fprintf(&sb, "/-- (processor, arguments of its statement.UnmarshalJSON calls) -/\ndef leafUnmarshals : List (String × List String) := [%s]\n", strings.Join(lus, ", "))
 	return sb.String(), nil
+}
+
+// c17PayloadSource: the value of `Payload:` in the TaskRequest literal of a plan stage; when it is
+// a local variable, the right-hand side of its (single) assignment, otherwise the expression
+// itself. Several assignments are reported as such.
+func c17PayloadSource(fd *ast.FuncDecl) string {
+	var payload ast.Expr
+	ast.Inspect(fd.Body, func(n ast.Node) bool {
+		if kv, ok := n.(*ast.KeyValueExpr); ok {
+			if id, ok := kv.Key.(*ast.Ident); ok && id.Name == "Payload" && payload == nil {
+				payload = kv.Value
+			}
+		}
+		return true
+	})
+	if payload == nil {
+		return "<no Payload field>"
+	}
+	id, ok := payload.(*ast.Ident)
+	if !ok {
+		return exprText(payload)
+	}
+	var rhs []string
+	ast.Inspect(fd.Body, func(n ast.Node) bool {
+		switch x := n.(type) {
+		case *ast.AssignStmt:
+			for i, l := range x.Lhs {
+				if li, ok := l.(*ast.Ident); ok && li.Name == id.Name {
+					if len(x.Rhs) == len(x.Lhs) {
+						rhs = append(rhs, exprText(x.Rhs[i]))
+					} else if len(x.Rhs) == 1 && i == 0 {
+						rhs = append(rhs, exprText(x.Rhs[0]))
+					} else {
+						rhs = append(rhs, "<multi-value>")
+					}
+				}
+			}
+		case *ast.IncDecStmt:
+			if li, ok := x.X.(*ast.Ident); ok && li.Name == id.Name {
+				rhs = append(rhs, "<incdec>")
+			}
+		}
+		return true
+	})
+	if len(rhs) == 1 {
+		return rhs[0]
+	}
+	return fmt.Sprintf("<%d assignments: %s>", len(rhs), strings.Join(rhs, " | "))
 }
 
 // c17ExprText prints an expression without blanks (enough to compare a guard's shape).
